@@ -482,6 +482,17 @@ def check(target, items, res, msyms, pie, unreachable=False, suffix="_sfx1"):
     w = fresh_proxies(res, msyms)
     if w:
         return w
+    # ---- an ordinary instruction falls through: when a block ends in one and code follows in the next block (a label or an alignment
+    # directive cut the block there), there is a fallthrough edge between the two
+    for name, sec in res.sections.items():
+        for b, nxt in zip(sec.blocks, sec.blocks[1:]):
+            if not (isinstance(b, gtirb.CodeBlock) and isinstance(nxt, gtirb.CodeBlock) and b.size and nxt.size):
+                continue
+            lastit = [it for (s_, o, it) in placed if s_ == name and it["size"] and o + it["size"] == b.offset + b.size]
+            first_next = [it for (s_, o, it) in placed if s_ == name and o == nxt.offset and it["size"]]
+            if lastit and lastit[0]["kind"] in ("nop", "ref") and first_next and first_next[0].get("mn"):
+                if not any(e.target is nxt and e.label.type == gtirb.Edge.Type.Fallthrough for e in res.cfg.out_edges(b)):
+                    return f"`{lastit[0]['line']}` at the end of the block at {name}+{b.offset} does not fall through to the code that follows it"
     # ---- data conversion
     for name, sec in res.sections.items():
         for k, b in enumerate(sec.blocks):
